@@ -6,6 +6,7 @@ pub mod chacha_stream;
 pub mod hashes;
 pub mod ppvnull;
 pub mod threefish;
+pub mod vecprog;
 pub mod vecs;
 
 use crate::engine::Ctx;
